@@ -26,6 +26,33 @@ def build_and_check_props(ctx: Ctx, props_files, extra_targets=()):
     return good
 
 
+def translate_engine_sources(ctx: Ctx) -> bool:
+    """the engine glue, the history bookkeeping and the operation handlers, regenerated from the tree under test by the three
+    translators (each fail closed); False when one of them rejects the source (reported as a broken obligation)"""
+    import tr_engine
+    import tr_handlers
+    import tr_history
+    from lib.vf import REPO
+    ok, info = True, {}
+    for mod, stem in ((tr_history, "HistorySrc"), (tr_handlers, "HandlersSrc"), (tr_engine, "EngineSrc")):
+        try:
+            files, meta = mod.gen(str(REPO))
+        except Exception as e:      # noqa: BLE001
+            ctx.prepare_coq()
+            for f in (ctx.coq / "gen").glob(stem + ".*"):
+                f.unlink()
+            ctx.broken.append("translator tools/%s.py rejects the source: %s" % (mod.__name__, str(e)[:300]))
+            ctx.obligations += 1
+            info[mod.__name__] = {"rejected": str(e)[:300]}
+            ok = False
+            continue
+        for n, t in files.items():
+            ctx.write_gen(n, t)
+        info[mod.__name__] = {"rejected": None, "functions": meta["functions"]}
+    ctx.cov.setdefault("translators", {}).update(info)
+    return ok
+
+
 def run_engine_shards(ctx: Ctx, shards: dict, parse):
     """Evaluate scenario shards; returns name -> parsed result."""
     res = ctx.coq_eval(shards)
